@@ -300,8 +300,8 @@ func (_this *Decoder) decodeArray(arrayType events.ArrayType, eventReceiver even
 func (_this *Decoder) decodeMedia(eventReceiver events.DataEventReceiver) {
 	// The reader reserves room for the media type before any rule sees it
 	maxMediaTypeLength := uint64(0xffffffff)
-	if _this.config.Rules.MaxArraySizeBytes < maxMediaTypeLength {
-		maxMediaTypeLength = _this.config.Rules.MaxArraySizeBytes
+	if maxArraySize := _this.config.Rules.MaxArraySizeBytes; maxArraySize > 0 && maxArraySize < maxMediaTypeLength {
+		maxMediaTypeLength = maxArraySize
 	}
 	mediaTypeLength := _this.reader.readSmallULEB128("media type length", maxMediaTypeLength)
 	mediaType := string(_this.reader.ReadBytes(int(mediaTypeLength)))
@@ -328,7 +328,7 @@ func (_this *Decoder) decodeArrayChunks(eventReceiver events.DataEventReceiver, 
 		byteCount := common.ElementCountToByteCount(elementBitWidth, elementCount)
 		// The reader reserves room for the whole chunk, and a receiver other than
 		// the rules would not have objected to its size.
-		if byteCount > _this.config.Rules.MaxArraySizeBytes {
+		if byteCount > _this.config.Rules.MaxArraySizeBytes && _this.config.Rules.MaxArraySizeBytes > 0 {
 			panic(fmt.Errorf("array chunk of %v bytes exceeds the maximum array size of %v", byteCount, _this.config.Rules.MaxArraySizeBytes))
 		}
 		if byteCount > 0 {
